@@ -5,6 +5,7 @@ import Pfl.Oracle.CfgMem
 import Pfl.Oracle.Trees
 import Pfl.Model.BarHillel
 import Pfl.Model.CFGCounters
+import Pfl.Model.CFGObject
 import Pfl.Model.Codec
 import Pfl.Model.LL1Lib
 import Pfl.Model.RecDescent
@@ -61,6 +62,38 @@ partial def jTree : PTree → Json
 
 def cfgFuel : Nat := 100000
 
+def asObjOp (j : Json) : R CFG.Obj.Op := do
+  match ← asStr (← field j "op") with
+  | "generating" => pure .generating
+  | "nullable" => pure .nullable
+  | "isEmpty" => pure .isEmpty
+  | "generateEpsilon" => pure .generateEpsilon
+  | "removeUseless" => pure .removeUseless
+  | "removeEpsilon" => pure .removeEpsilon
+  | "normalForm" => pure .normalForm
+  | "contains" => pure (.contains (← asStrList (← field j "w")))
+  | "getWords" => pure (.getWords (← asOptNat (← field j "max")))
+  | "isFinite" => pure .isFinite
+  | o => throw s!"unknown object op {o}"
+
+def jObjOut : CFG.Obj.Out → Json
+  | .syms l => jSymList l
+  | .bool b => jBool b
+  | .cfg g => jCFG g
+  | .words l => jWords l
+
+def jObjState (s : CFG.Obj.State) : Json :=
+  Json.mkObj [("rem", jOpt (fun (t : CFG.Remaining × CFG.Impacts × List String) => jList (jPair jStr (jList jNat)) t.1) s.tables),
+    ("gen", jOpt jSymList s.gen), ("nul", jOpt jSymList s.nul), ("nf", jOpt jCFG s.nf)]
+
+/-- a history on one object: after every call the answer and the hidden state -/
+def objRun (G : CFG) : CFG.Obj.State → List CFG.Obj.Op → List Json
+  | _, [] => []
+  | s, op :: ops =>
+    match CFG.Obj.step G cfgFuel s op with
+    | none => [Json.null]
+    | some (s1, o) => Json.mkObj [("out", jObjOut o), ("state", jObjState s1)] :: objRun G s1 ops
+
 /-- the cleaned grammar on which `to_normal_form` finally runs its fast path (harness helper: its
 variables are the names that fresh binarisation variables must avoid) -/
 def cnfBase (G : CFG) : Nat → Option CFG
@@ -110,6 +143,9 @@ def cfgHandle (op : String) (j : Json) : R Json := do
       | none => jStr "fuel"
       | some none => Json.null
       | some (some t) => jTree t) ws)
+  | "cfg.objRun" =>
+    let ops ← (← asArr (← field j "ops")).mapM asObjOp
+    pure (Json.arr (objRun G {} ops).toArray)
   | "cfg.counters" =>
     let nullable ← asBool (← field j "nullable")
     let (rem, imp, added) := G.buildTables
